@@ -204,6 +204,9 @@ def run(chk):
         max(map(pos, body)) < min(map(pos, ob)) and \
         max(map(pos, ob)) < min(map(pos, lim))
     same_name = all(arg_name(c, 0) == 'name' for c in ob + lim)
+    if not (ok and same_name):
+      # the same composition written through locals and small helpers
+      ok, same_name = _composition(repo, v, r.value), True
     chk.ob('C18-R2', ok and same_name, None,
            'return carries body + OrderByClause(name) + LimitClause(name)',
            'a result of PredicateSql lacks the ORDER BY / LIMIT clause of the '
@@ -381,3 +384,89 @@ def clause_builders_do_not_consume(chk, rid):
            'requested predicate) the clause is built from what is left'
            % (norm(changed, 50) if changed is not None else '', accessor.split('.')[-1]),
            fi=v.fi, node=changed)
+
+
+def _composition(repo, v, expr):
+  """body, then OrderByClause(name), then LimitClause(name) among the operands
+  of the returned expression (`a + b + c` or `'..%s %s' % (a, b, c)`), each
+  operand read through single-definition locals, parallel / tuple unpackings
+  and helpers of the class that return a tuple."""
+  def kinds(e, view, depth=0):
+    out = set()
+    if depth > 4 or e is None:
+      return out
+    for x in ast.walk(e):
+      if isinstance(x, ast.Call):
+        tg = repo.resolve(view.fi, x)
+        if OBCLAUSE in tg and arg_name(x, 0) == 'name':
+          out.add('ob')
+        elif LIMCLAUSE in tg and arg_name(x, 0) == 'name':
+          out.add('lim')
+        elif SINGLE in tg or call_tail(x) == 'join':
+          out.add('body')
+        else:
+          for t in tg:
+            if t.startswith('universe.LogicaProgram.') and t != view.fi.fq and depth < 3:
+              try:
+                h = FnView(repo, t)
+              except AnalysisError:
+                continue
+              for _, r_ in h.returns():
+                if r_.value is not None and not isinstance(r_.value, ast.Tuple):
+                  out |= kinds(r_.value, h, depth + 1)
+      elif isinstance(x, ast.Name) and isinstance(x.ctx, ast.Load):
+        d = view.single_defs().get(x.id)
+        if d is None:
+          try:
+            d = view.reaching_value(x)
+          except Exception:
+            d = None
+        if d is not None:
+          out |= kinds(d, view, depth + 1)
+          continue
+        # a, b = self.Helper(name): element i of the tuple the helper returns
+        for st in walk_local(view.fi.node):
+          if isinstance(st, ast.Assign) and len(st.targets) == 1 and \
+              isinstance(st.targets[0], ast.Tuple) and isinstance(st.value, ast.Call):
+            names = [t_.id if isinstance(t_, ast.Name) else None for t_ in st.targets[0].elts]
+            if x.id in names:
+              i_ = names.index(x.id)
+              for t in repo.resolve(view.fi, st.value):
+                try:
+                  h = FnView(repo, t)
+                except AnalysisError:
+                  continue
+                if arg_name(st.value, 0) != 'name':
+                  continue
+                for _, r_ in h.returns():
+                  if isinstance(r_.value, ast.Tuple) and i_ < len(r_.value.elts):
+                    sub = kinds(r_.value.elts[i_], h, depth + 1)
+                    out |= sub
+          # appended in a loop / list of bodies
+        if x.id not in view.single_defs():
+          for el in _elements_of(view, x.id):
+            out |= kinds(el, view, depth + 1)
+    return out
+  e = expr
+  if isinstance(e, ast.Name):
+    e = v.single_defs().get(e.id, e)
+  if isinstance(e, ast.BinOp) and isinstance(e.op, ast.Mod):
+    ops = list(e.right.elts) if isinstance(e.right, ast.Tuple) else [e.right]
+  else:
+    ops, todo = [], [e]
+    while todo:
+      y = todo.pop()
+      if isinstance(y, ast.BinOp) and isinstance(y.op, ast.Add):
+        todo += [y.right, y.left]
+      else:
+        ops.append(y)
+  seq = [kinds(o, v) for o in ops]
+  def first(k):
+    return next((i for i, s_ in enumerate(seq) if k in s_), None)
+  def last(k):
+    idx = [i for i, s_ in enumerate(seq) if k in s_]
+    return idx[-1] if idx else None
+  if None in (first('body'), first('ob'), first('lim')):
+    return False
+  return last('body') < first('ob') and last('ob') < first('lim') and \
+      not any(('ob' in s_ and 'lim' in s_) or ('body' in s_ and ('ob' in s_ or 'lim' in s_)) for s_ in seq)
